@@ -36,7 +36,8 @@ tvars == <<chk, sess, hist, calls, parked, tid, l>>
 
 Ev == Traces[tid][l]
 More == l <= Len(Traces[tid])
-Step == l' = l + 1 /\ UNCHANGED <<tid, parked>>
+StepL == l' = l + 1 /\ UNCHANGED tid
+Step == StepL /\ UNCHANGED parked
 Sizes(c) == [i \in 1..NChecks |-> Cardinality(c[i])]
 LastOf(s) == s[Len(s)]
 
@@ -54,7 +55,16 @@ TrOpen ==
                    resumed |-> FALSE, createdAt |-> 0, sid |-> Ev.sid]
              ELSE [kind |-> "writer", ds |-> [rows |-> Ev.rows, fault |-> 0], closes |-> TRUE, pos |-> 0, line |-> 0,
                    out |-> <<>>, acc |-> 0, rej |-> 0, sid |-> Ev.sid]
-  /\ calls' = <<>> /\ UNCHANGED hist /\ Step
+  \* a reader that was created and not started yet stays behind (Park); any other unfinished session is simply dropped
+  /\ parked' = IF sess.kind = "reader" /\ ~sess.started /\ parked.kind = "none" THEN sess ELSE parked
+  /\ calls' = <<>> /\ UNCHANGED hist /\ StepL
+
+\* the reader that stayed behind is taken up again (Resume): a silent step in front of its reader_start event
+TrResume ==
+  /\ More /\ Ev.ev = "reader_start" /\ parked.kind = "reader" /\ Ev.sid = parked.sid
+  /\ ~(sess.kind \in {"reader", "writer", "closed"} /\ Ev.sid = sess.sid)
+  /\ sess' = [parked EXCEPT !.resumed = TRUE] /\ parked' = NoSess /\ calls' = <<>>
+  /\ UNCHANGED <<chk, hist, tid, l>>
 
 Mine == sess.kind \in {"reader", "writer", "closed"} /\ Ev.sid = sess.sid
 
@@ -111,7 +121,7 @@ TrWrite ==
   /\ IF Ev.sizes = <<>> THEN TRUE ELSE Ev.sizes = Sizes(chk')                 \* (not logged if the writer was dropped)
   /\ Step
 
-TNext == TrOpen \/ TrStart \/ TrRow \/ TrExit \/ TrClose \/ TrWrite
+TNext == TrOpen \/ TrResume \/ TrStart \/ TrRow \/ TrExit \/ TrClose \/ TrWrite
 TSpec == TInit /\ [][TNext]_tvars
 
 \* one line per reached position; the harness accepts a trace iff position Len+1 was reached
